@@ -113,6 +113,8 @@ def main(argv=None):
     ap.add_argument("--replay")
     ap.add_argument("--update-baseline", action="store_true")
     ap.add_argument("--verbose", "-v", action="store_true")
+    ap.add_argument("--group", help="substring filter on obligation groups (debugging)")
+    ap.add_argument("--no-bounded", action="store_true", help="skip the L2 bounded runs (debugging)")
     ap.add_argument("--only", help="substring filter on contract keys (debugging)")
     a = ap.parse_args(argv)
     if a.replay:
